@@ -400,7 +400,7 @@ def tie(ctx):
     for f in fails[:3]:
         dis.append({'what': 'JSON hypothesis / round trip does not hold on the real code: ' + f['class'], 'case': f['case'],
                     'observed': f.get('observed')})
-    n_conc = tie_concurrent(ctx, dist, dis) + tie_holder(ctx, dist, dis)
+    n_conc = tie_concurrent(ctx, dist, dis) + tie_holder(ctx, dist, dis) + tie_missing_fields(ctx, dist, dis)
     return {
         'evaluations': len(terms) + dist['truncation_fetches'] + n_conc + dist['json_extra_data_fetches'],
         'distinct_nontrivial': nontriv + dist['truncation_fetches'] - dist['truncation_files'],
@@ -670,6 +670,117 @@ def json_extra_sweep(rng, fails, pairs):
     finally:
         shutil.rmtree(d, ignore_errors=True)
     return n
+
+
+# ------------------------------------------------------------------ structurally valid JSON with missing fields
+
+FIELD_KEYS = ['__class__', 'ident', 'group', 'name', 'ctype', 'pytype', 'access', 'extended']
+K_COQ = {'__class__': 'k_class', 'ident': 'k_ident', 'group': 'k_group', 'name': 'k_name', 'ctype': 'k_ctype',
+         'pytype': 'k_pytype', 'access': 'k_access', 'extended': 'k_extended'}
+
+
+def text_without(t, crc, key, which):
+    """the text the real insert writes for table t, with `key` removed from the first element object or from all"""
+    doc = json.loads(full_text(t, crc).decode('ascii'))
+    first = True
+    for g in doc.values():
+        for e in g.values():
+            if which == 'all' or first:
+                e.pop(key, None)
+            first = False
+    return json.dumps(doc, indent=2).encode('ascii')
+
+
+HEADER_D = HEADER + """
+Definition dremove_key (k : list Z) (f : jfields) : jfields := filter (fun kv => negb (zlist_eqb k (fst kv))) f.
+Definition drop_all (k : list Z) (d : jdoc) : jdoc :=
+  map (fun gd => (fst gd, map (fun nf => (fst nf, dremove_key k (snd nf))) (snd gd))) d.
+Definition drop_first (k : list Z) (d : jdoc) : jdoc :=
+  match d with
+  | (g, (n, f) :: gr) :: r => (g, (n, dremove_key k f) :: gr) :: r
+  | _ => d
+  end.
+"""
+
+
+def tie_missing_fields(ctx, dist, dis):
+    """the decoder + object hook on files in which a field is missing from one / all element objects: every key,
+    both classes, file in the rw or in the ro directory; real TocCache.fetch against `load`"""
+    from cflib.crazyflie.toccache import TocCache
+    rng = ctx.rng
+    terms, exp, cs = [], [], []
+    for rep in range(ctx.scale(2, 12)):
+        for cls in ('log', 'param'):
+            t = gen_table(rng, n=rng.choice([1, 2, 3]), cls=cls)
+            for key in FIELD_KEYS:
+                for which in ('first', 'all'):
+                    crc = rng.getrandbits(32)
+                    d = mkdtemp()
+                    try:
+                        with open(os.path.join(d, '%08X.json' % crc), 'wb') as f:
+                            f.write(text_without(t, crc, key, which))
+                        cache = TocCache(ro_cache=d) if (rep + len(terms)) % 2 else TocCache(rw_cache=d)
+                        try:
+                            obs = enc_fetch(cache.fetch(crc))
+                        except Exception as e:  # noqa
+                            obs = [9, c03.EXN.get(type(e).__name__, 99)]
+                    finally:
+                        shutil.rmtree(d, ignore_errors=True)
+                    terms.append('enc_lres (load (drop_%s %s (jdoc_of %s)))' % (which, K_COQ[key], c03.q_toc(t)))
+                    exp.append(obs)
+                    cs.append((cls, key, which))
+    for bi, mv in c03.compare_blocks(HEADER_D, terms, exp, tag='c11d', shard=max(2, len(terms) // 8 + 1)):
+        dis.append({'what': 'cache file with a missing field: decoder model and implementation differ', 'class': cs[bi][0],
+                    'key': cs[bi][1], 'dropped_from': cs[bi][2], 'model': None if mv is None else mv[:30], 'impl': exp[bi][:30]})
+        if len(dis) > 6:
+            break
+    dist['missing_field_files'] = len(terms)
+    return len(terms)
+
+
+def missing_field_case(case):
+    """end to end: a structurally valid cache file with a field missing is there under the checksum the device
+    announces (rw or ro directory); after the fetch the table must be exactly the device's (incl. the extended
+    marker) — i.e. the file was a miss and the table was downloaded"""
+    from cflib.crazyflie.toccache import TocCache
+    items = [c03.ditem_unjson(d) for d in case['items']]
+    cls, crc = case['cls'], case['crc']
+    t = c03.toc_lists([c03.spec_elem(cls, i, it) for i, it in enumerate(items)])
+    root = mkdtemp()
+    try:
+        ro, rw = os.path.join(root, 'ro'), os.path.join(root, 'rw')
+        os.makedirs(ro)
+        os.makedirs(rw)
+        with open(os.path.join(ro if case['where'] == 'ro' else rw, '%08X.json' % crc), 'wb') as f:
+            f.write(text_without(t, crc, case['key'], case['which']))
+        for sess in range(2):
+            h, fins, exc, nreq = fetch_through_cache(cls, items, crc, TocCache(ro_cache=ro, rw_cache=rw), case['ver'])
+            bad = ('callback raised %r' % (exc[0][1:],)) if exc else ('finished %d times' % fins) if fins != 1 else c03.check_table(cls, items, h)
+            if bad:
+                return {'class': 'cache_file_with_missing_field_used', 'case': case, 'observed': bad,
+                        'detail': 'session %d, file without %r in %s element object(s), %d request(s): %s' % (
+                            sess, case['key'], case['which'], nreq, bad),
+                        'expected': 'miss, then exactly the device table (extended marker included)'}
+        return None
+    finally:
+        shutil.rmtree(root, ignore_errors=True)
+
+
+def gen_missing_field_cases(rng, count):
+    out = []
+    k = 0
+    while len(out) < count:
+        cls = 'param' if k % 3 else 'log'
+        key = FIELD_KEYS[k % len(FIELD_KEYS)]
+        ver = rng.choice([3, 7])
+        items = c03.gen_items(rng, cls, rng.choice([1, 2, 3]), ver >= 4)
+        if cls == 'param':
+            items[rng.randrange(len(items))]['ext'] = True          # the device announces extended for some entry
+        out.append({'kind': 'missing_field', 'cls': cls, 'ver': ver, 'items': [c03.ditem_json(i) for i in items],
+                    'crc': rng.getrandbits(32), 'key': key, 'which': 'all' if (k // 8) % 2 else 'first',
+                    'where': 'ro' if (k // 3) % 2 else 'rw'})
+        k += 1
+    return out
 
 
 # ------------------------------------------------------------------ oracle
@@ -1243,6 +1354,9 @@ def _run_case(case, rng):
     if case.get('kind') == 'collision':
         f = oracle_collision(case)
         return [f] if f else []
+    if case.get('kind') == 'missing_field':
+        f = missing_field_case(case)
+        return [f] if f else []
     if case.get('kind') == 'vanished':
         f = vanished_case(case)
         return [f] if f else []
@@ -1302,6 +1416,11 @@ def oracle(ctx, deep=False):
     for case in gen_collision_empty_cases(rng, ctx.scale(40, 300) * (2 if deep else 1)):
         n += 1
         f = collision_empty_case(case)
+        if f:
+            fails.append(f)
+    for case in gen_missing_field_cases(rng, ctx.scale(48, 300)):
+        n += 1
+        f = missing_field_case(case)
         if f:
             fails.append(f)
     for case in gen_vanished_cases(rng, ctx.scale(16, 120)):
